@@ -317,7 +317,7 @@ def monC18 (h : Hist) : Option String :=
   let parse := h.glue.parseTime
   h.reqs.findSome? fun ri => do
     let x ← h.ex ri
-    if !(isPlainGet ri && Spec.hasDirective Spec.rfc ri.req.header (str% "only-if-cached")) then none else
+    if !(Spec.hasDirective Spec.rfc ri.req.header (str% "only-if-cached")) then none else
     if !x.fgCalls.isEmpty || !x.bgCalls.isEmpty then some s!"exchange {ri.n}: only-if-cached request caused an origin call"
     else if x.res.kind != "resp" then some s!"exchange {ri.n}: only-if-cached request did not get a response"
     else if x.fromStore then
